@@ -32,53 +32,6 @@ def abstract(s):
 
 
 INLINE_CONST_LOCALS = True
-_INL_CACHE = {}
-
-
-def inlinable_locals(P, F):
-    """locals that merely name a value: const / constexpr / reference-to-const locals with a side-effect-free initialiser.
-    Introducing or removing such a name changes no behaviour, so canonical forms are written over the initialisers."""
-    cache = _INL_CACHE.get((id(P), F.key))
-    if cache is not None:
-        return cache
-    out = {}
-    loopvars = set()
-    for n in F.walk():
-        if n.get("k") == "CXXForRangeStmt" and n.get("c") and n["c"][0] is not None:
-            loopvars.add(n["c"][0].get("r"))
-        if n.get("k") == "ForStmt" and n.get("c") and n["c"][0] is not None:
-            for v in F.walk(n["c"][0]):
-                if v.get("k") == "VarDecl":
-                    loopvars.add(v.get("r"))
-    for n in F.walk():
-        if n.get("k") != "VarDecl" or not n.get("c") or n.get("r") in loopvars:
-            continue
-        d = P.d(n["r"])
-        if d.get("storage") not in ("local",):
-            continue
-        t = n.get("t", "")
-        if not (t.startswith("const ") or d.get("const")):
-            continue
-        bare = t.replace("const ", "").strip()
-        # plain values and aliases only: a struct-valued local (the result record of a kernel call) stays a name
-        if not (norm.is_arith(bare) or bare.endswith("&") or bare in ("std::size_t", "size_t", "unsigned long", "std::string")):
-            continue
-        init = n["c"][0]
-        pure = True
-        for y in F.walk(init):
-            ky = y.get("k")
-            if ky in ("BinaryOperator", "CompoundAssignOperator") and y.get("op") in norm.ASSIGN_OPS:
-                pure = False
-            elif ky == "UnaryOperator" and y.get("op") in ("++", "--"):
-                pure = False
-            elif ky in ("CXXMemberCallExpr", "CXXOperatorCallExpr") and y.get("callee") and P.d(y["callee"]).get("k") == "CXXMethod" and not P.d(y["callee"]).get("const"):
-                pure = False
-            elif ky in ("LambdaExpr", "CXXNewExpr", "CXXThrowExpr"):
-                pure = False
-        if pure:
-            out[n["r"]] = init
-    _INL_CACHE[(id(P), F.key)] = out
-    return out
 
 
 class Canon:
@@ -92,7 +45,9 @@ class Canon:
             self.alias[p] = ("p%d" % i) if alias_params else P.d(p).get("n", "p%d" % i)
         self.nloc = 0
         # where the caller compares by local names (alias_locals=False) the names are anchors and stay
-        self.inl = inlinable_locals(P, F) if (INLINE_CONST_LOCALS and alias_locals) else {}
+        sub = norm.naming_locals(P, F) if (INLINE_CONST_LOCALS and alias_locals) else norm.Subst()
+        self.inl = sub.vals
+        self.lams = sub.lams
 
     def name(self, key, d):
         if key in self.alias:
@@ -143,6 +98,9 @@ class Canon:
         if k == "UnaryOperator":
             return (r(c[0]) + n["op"]) if n.get("post") else (n["op"] + r(c[0]))
         if k in ("BinaryOperator", "CompoundAssignOperator"):
+            if n["op"] in ("==", "!=") and sc(c[1]).get("k") == "CXXBoolLiteralExpr":
+                neg = (sc(c[1]).get("v") is False) == (n["op"] == "==")
+                return ("!" if neg else "") + r(c[0])
             a, b = r(c[0]), r(c[1])
             op = n["op"]
             if op in ("+", "*") and b < a:
@@ -160,6 +118,22 @@ class Canon:
             op = n.get("op")
             if op == "[]":
                 return "%s[%s]" % (r(c[0]), r(c[1]))
+            lc = norm.lambda_call(n, norm.Subst(lams=self.lams)) if self.lams else None
+            if lc is not None:
+                # a call of a single-return local lambda stands for its body with the arguments substituted
+                params, body, args = lc
+                saved = {pk: self.alias.get(pk) for pk in params}
+                vals = [r(a) for a in args]
+                for pk, v in zip(params, vals):
+                    self.alias[pk] = v
+                try:
+                    return r(body)
+                finally:
+                    for pk, v in saved.items():
+                        if v is None:
+                            self.alias.pop(pk, None)
+                        else:
+                            self.alias[pk] = v
             if op == "()":
                 return "%s(%s)" % (r(c[0]), ", ".join(r(x) for x in c[1:]))
             if len(c) == 1:
@@ -176,7 +150,13 @@ class Canon:
             args = [x for x in c[1:] if x is None or x.get("k") != "CXXDefaultArgExpr"]
             if c[0].get("n") == "declare_entry" and len(args) == 3:
                 args = args[:2]          # the third argument is documentation text
-            return "%s(%s)" % (r(c[0]), ", ".join(r(x) for x in args))
+            callee = r(c[0])
+            # spellings of one operation
+            if callee.endswith(".resize") and len(args) == 1 and sc(args[0]).get("k") == "IntegerLiteral" and sc(args[0]).get("v") == 0:
+                return "%s.clear()" % callee[:-len(".resize")]
+            if callee.endswith(".push_back"):
+                callee = callee[:-len(".push_back")] + ".emplace_back"
+            return "%s(%s)" % (callee, ", ".join(r(x) for x in args))
         if k == "CallExpr":
             d = P.d(n.get("callee")) if n.get("callee") else {}
             nm = abstract(d.get("qn") or (r(c[0]) if c else "?"))
@@ -225,7 +205,7 @@ class Canon:
         elif k == "DeclStmt":
             for v in c:
                 if v.get("k") == "VarDecl":
-                    if v["r"] in self.inl:
+                    if v["r"] in self.inl or v["r"] in self.lams:
                         continue
                     d = self.P.d(v["r"])
                     nm = self.name(v["r"], d)
